@@ -10,6 +10,7 @@ inside the configuration, one record per configuration and one spec per (configu
 -/
 import IrVerif.Lemmas.DeviceNames
 import IrVerif.Lemmas.DeviceRTLegacy
+import IrVerif.Lemmas.DeviceInline
 namespace IrVerif.Device
 
 /-! ### C19_step -/
@@ -401,5 +402,45 @@ example (w w' : World) (nd nd' : NodeS) : NodeRel w w' nd nd' =
 theorem C19_serializable (w : World) (h : DevOK w) (hn : Named w) (m : MId) :
     ∃ protos, serModelDev w m = some protos :=
   serModelDev_some h hn m
+
+/-! ### InlinePass: annotations of an instantiated body node -/
+
+/-- **C19_inline_remap**: the step of `InlinePass` that handles annotations - `Cloner.clone_node` of a
+    function-body node with the inliner's value map (formal parameter -> actual argument of the call
+    node, or `None` for a missing / `None` argument; body value -> its clone).  For a body node of a world
+    satisfying `DevOK` (only "every spec targets an input or output of the node" is used) whose
+    instantiation succeeds: the new inputs are the images of the old ones, the outputs are fresh, the
+    records keep their configuration objects and stages in order, **every spec of the new node targets an
+    input or output of the new node** (nothing dangles into the function body or elsewhere), and every
+    new spec comes from a spec of the same configuration with the same devices and sharded axes whose
+    value was an output (now the corresponding new output) or an input whose image is the new target;
+    in particular a spec on a formal parameter mapped to `None` is dropped, never kept with a dangling
+    target.  (The remaining steps of the pass are operations of the alphabet: re-wiring the uses of the
+    call node's outputs is `replace_input_with`, the removal of the call node `Graph.remove(safe=True)`;
+    the composition, the renaming of inlined values and the copy of the call outputs' shapes onto the
+    function outputs' images are oracle-only - after inlining axes may be out of range for the actual
+    arguments and two specs may coincide, so the full `DevOK` is not claimed.) -/
+theorem C19_inline_remap (w : World) (h : DevOK w) (k : NId) (vm : OMap) (base : Nat) (nd' : NodeS)
+    (hi : instNode vm (w.node k) base = some nd') :
+    nd'.inputs = (w.node k).inputs.map (fun o => o.bind (oimg vm)) ∧
+    nd'.outputs = List.range' base (w.node k).outputs.length ∧
+    nd'.dev.map (·.cfg) = (w.node k).dev.map (·.cfg) ∧ nd'.dev.map (·.stage) = (w.node k).dev.map (·.stage) ∧
+    (∀ nc' ∈ nd'.dev, ∀ s' ∈ nc'.specs, InIO nd' s'.value) ∧
+    (∀ nc' ∈ nd'.dev, ∀ s' ∈ nc'.specs, ∃ nc ∈ (w.node k).dev, nc.cfg = nc'.cfg ∧ ∃ s ∈ nc.specs,
+      s'.device = s.device ∧ s'.dims = s.dims ∧
+      ((s.value ∈ (w.node k).outputs ∧ s'.value ∈ nd'.outputs) ∨
+       (s.value ∉ (w.node k).outputs ∧ oimg vm s.value = some s'.value))) :=
+  instNode_spec (h.specs_io k) hi
+
+/-- non-vacuity: a body node `Add(fx, fy) -> fo` sharded on `fx`, `fy` and `fo`, instantiated for a call
+    that passes only the first argument: the spec on `fx` follows the actual argument (value 7), the spec
+    on `fy` is dropped, the spec on `fo` follows the new output (value 9) -/
+example :
+    let w := (run {} [.newModel 11, .newFunction 0, .newInput 1 "fx" none, .newInput 1 "fy" none,
+      .newNode 1 [some 0, some 1] [("fo", none)], .addCfg 0 "c" (some 2) [],
+      .shard 0 0 0 0 2 [] none, .shard 0 1 0 0 2 [] none, .shard 0 2 0 1 2 [] none]).1
+    DevOK w ∧ (instNode [(0, some 7), (1, none)] (w.node 0) 9).map (fun nd => (nd.inputs, nd.outputs, nd.dev)) =
+      some ([some 7, none], [9], [⟨0, [⟨7, [], [⟨0, .unk, 2⟩]⟩, ⟨9, [], [⟨1, .unk, 2⟩]⟩], none⟩]) := by
+  decide
 
 end IrVerif.Device
